@@ -1,6 +1,7 @@
 package interp
 
 import (
+	"strconv"
 	"fmt"
 	"go/token"
 	"go/types"
@@ -36,6 +37,12 @@ func (in *Interp) materializeBlob(s *SliceVal) {
 }
 
 func (in *Interp) blobLen(s SliceVal) int {
+	switch x := s.Ext.(type) {
+	case *jsonDoc:
+		return in.jsonDocLen(x)
+	case *rawJSON:
+		return len(x.text)
+	}
 	if p, ok := s.Ext.(*extPart); ok {
 		if p.kind == "salt" {
 			return 10 // decimal unix seconds
@@ -260,6 +267,42 @@ func registerBlobs(ex *Explorer) {
 	I["encoding/json.Unmarshal"] = func(in *Interp, fn *ssa.Function, a []Value) Value {
 		data := a[0].(SliceVal)
 		dst := a[1].(IfaceVal)
+		if data.Ext == nil && data.Len == 0 {
+			return in.newError("unexpected end of JSON input")
+		}
+		if d, isDoc := data.Ext.(*jsonDoc); isDoc {
+			dc, ok := dst.V.(*Cell)
+			if !ok || dc == nil {
+				return in.newError("json: Unmarshal(non-pointer)")
+			}
+			st, ok := dst.T.(*types.Pointer).Elem().Underlying().(*types.Struct)
+			if !ok {
+				return in.newError("json: cannot unmarshal object into Go value (document model)")
+			}
+			return in.unmarshalDoc(d, dc, st)
+		}
+		if r, isRaw := data.Ext.(*rawJSON); isRaw {
+			dc, ok := dst.V.(*Cell)
+			if !ok || dc == nil {
+				return in.newError("json: Unmarshal(non-pointer)")
+			}
+			et := dst.T.(*types.Pointer).Elem()
+			switch r.text {
+			case "null":
+				return IfaceVal{} // leaves the destination as it is
+			case "[]":
+				if sl, ok := et.Underlying().(*types.Slice); ok {
+					in.storeInto(dc, et, in.makeSlice(sl.Elem(), 0, 0))
+					return IfaceVal{}
+				}
+				return in.newError("json: cannot unmarshal array into Go value (document model)")
+			}
+			if n, err := strconv.ParseUint(r.text, 10, 64); err == nil && isIntType(et) {
+				in.storeInto(dc, et, in.wrap(in.F.BigInt(new(big.Int).SetUint64(n)), et))
+				return IfaceVal{}
+			}
+			in.fail("unsupported", "json.Unmarshal of the raw literal "+r.text)
+		}
 		b, ok := data.Ext.(*blob)
 		if !ok || b.kind != "json" {
 			if cb, isC := in.sliceBytes(data); isC && data.Arr != nil && string(cb) == "[]" {
